@@ -865,3 +865,127 @@ func configFeeds(p *Prog, gField, cfgField string, div int64) (bool, string, str
 	}
 	return ok && n == 1, pos, fmt.Sprintf("%d store(s) in the configuration reader: %s", n, det)
 }
+
+// ---------------------------------------------------------------- a default that depends on another key
+
+// c14DependentDefaults: most defaults are constants of the defaults table.  A documented default that depends on
+// ANOTHER key cannot be: it must be derived after file and batch line were overlaid, from the effective value of that
+// key.  Confirmed by reading (the field's comment says "default RES, csv"): the result-file extension follows the
+// result-file format.  Demanded: after the call of the line overlay the reader assigns the dependent field under
+// "the field is still empty", in arms selected by the other key, with pairwise different constants; the table entry
+// is re-validated against the field's comment on every run.
+var c14Dependent = map[string]struct {
+	on      string
+	mention []string
+}{
+	"ResultFileExt": {"ResultFileFormat", []string{"RES", "csv"}},
+}
+
+func c14DependentDefaults(p *Prog, r *Report) {
+	r.Rule("C14.R8", "a documented default that depends on another key is derived from that key's effective value: after the batch-line overlay, under 'the field is still empty', in arms selected by the other key, with different constants", 1)
+	fi := p.Funcs["hermes.readConfig"]
+	if fi == nil {
+		r.Ob("dependent-default", "-", false, "hermes.readConfig not found")
+		return
+	}
+	info := fi.Pkg.TypesInfo
+	var overlay token.Pos
+	ast.Inspect(fi.Decl.Body, func(n ast.Node) bool {
+		if c, ok := n.(*ast.CallExpr); ok {
+			if id, ok := c.Fun.(*ast.Ident); ok && id.Name == "commandlineOverride" {
+				overlay = c.Pos()
+			}
+		}
+		return true
+	})
+	var names []string
+	for k := range c14Dependent {
+		names = append(names, k)
+	}
+	sort.Strings(names)
+	for _, fld := range names {
+		dep := c14Dependent[fld]
+		// the table entry still describes the field's documentation
+		documented := false
+		for _, f := range fi.Pkg.Syntax {
+			ast.Inspect(f, func(n ast.Node) bool {
+				fl, ok := n.(*ast.Field)
+				if !ok || len(fl.Names) != 1 || fl.Names[0].Name != fld || fl.Comment == nil {
+					return true
+				}
+				txt := fl.Comment.Text()
+				all := true
+				for _, m := range dep.mention {
+					if !strings.Contains(txt, m) {
+						all = false
+					}
+				}
+				documented = documented || all
+				return true
+			})
+		}
+		if !documented {
+			r.Ob("dependent-default:"+fld, "-", false, fmt.Sprintf("the table entry is stale: no Config field %s whose comment documents the defaults %v", fld, dep.mention))
+			continue
+		}
+		ok, det, pos := false, "no fallback for the empty field after the overlay", "-"
+		isField := func(e ast.Expr, name string) bool {
+			se, isSe := ast.Unparen(e).(*ast.SelectorExpr)
+			if !isSe || se.Sel.Name != name {
+				return false
+			}
+			sel, has := info.Selections[se]
+			return has && sel.Kind() == types.FieldVal
+		}
+		mentions := func(n ast.Node, name string) bool {
+			f := false
+			ast.Inspect(n, func(m ast.Node) bool {
+				if e, isE := m.(ast.Expr); isE && isField(e, name) {
+					f = true
+				}
+				return true
+			})
+			return f
+		}
+		ast.Inspect(fi.Decl.Body, func(n ast.Node) bool {
+			is, isIf := n.(*ast.IfStmt)
+			if !isIf || is.Pos() < overlay || !mentions(is.Cond, fld) {
+				return true
+			}
+			// "still empty": len(field) == 0 or field == ""
+			be, isBe := is.Cond.(*ast.BinaryExpr)
+			if !isBe || be.Op != token.EQL {
+				return true
+			}
+			// arms selected by the other key, each storing a constant into the field
+			consts := map[string]bool{}
+			selected := false
+			ast.Inspect(is.Body, func(m ast.Node) bool {
+				if inner, isInner := m.(*ast.IfStmt); isInner && mentions(inner.Cond, dep.on) {
+					selected = true
+				}
+				if sw, isSw := m.(*ast.SwitchStmt); isSw && sw.Tag != nil && mentions(sw.Tag, dep.on) {
+					selected = true
+				}
+				if as, isAs := m.(*ast.AssignStmt); isAs && len(as.Lhs) == 1 && len(as.Rhs) == 1 && isField(as.Lhs[0], fld) {
+					if tv, has := info.Types[as.Rhs[0]]; has && tv.Value != nil {
+						consts[tv.Value.ExactString()] = true
+					}
+				}
+				return true
+			})
+			pos = p.Pos(is.Pos())
+			if selected && len(consts) >= 2 {
+				ok = true
+				det = fmt.Sprintf("empty %s is filled after the overlay in arms selected by %s with %d different constants", fld, dep.on, len(consts))
+			} else {
+				det = fmt.Sprintf("the fallback for %s does not select by %s (selected: %v, constants: %d)", fld, dep.on, selected, len(consts))
+			}
+			return true
+		})
+		if overlay == 0 {
+			ok, det = false, "the batch-line overlay call was not found in the reader"
+		}
+		r.Ob("dependent-default:"+fld, pos, ok, det)
+	}
+}
